@@ -61,6 +61,7 @@ TrSafe == \* evaluated as a separate line after every effect: if the process die
 TrEnd == /\ Tr[l].call.op = "wend" /\ Keep
          /\ Note(<< C("noraise", Tr[l].obs.raised = "" /\ Tr[l].obs.ret),
                     C("finished", pc = "done"),
+                    C("one_logical_write_is_one_replacement", Tr[l].obs.n_renames <= 1),
                     C("new_data_in_place", disk["dst"] = <<"new", PayloadLen>>),
                     C("no_leftover", disk["tmp"] = W!Absent),
                     C("reads_back_new", Tr[l].obs.final = Tr[l].obs.expect_new) >>)
